@@ -261,6 +261,8 @@ namespace sqf::parser::preprocessor
             std::vector<file_scope> m_file_scopes;
             std::unordered_set<std::string> m_visited;
             bool m_errflag = false;
+            // Names of the macros currently being expanded (outermost first)
+            std::vector<std::string> m_macro_stack;
             impl_default* m_owner;
             std::unordered_map<std::string, ::sqf::runtime::parser::macro> m_macros;
 
